@@ -1,4 +1,4 @@
 SPECIFICATION Spec
-CONSTANTS MaxOps = 3  MaxIng = 2  MaxArch = 1
+CONSTANTS MaxOps = 3  MaxIng = 2  MaxArch = 1  Variants = FALSE
 INVARIANTS Emit
 CHECK_DEADLOCK FALSE
